@@ -96,17 +96,32 @@ def _worker_init():
     pass
 
 
+class CaseTimeout(Exception):
+    pass
+
+
+def _alarm(signum, frame):
+    raise CaseTimeout()
+
+
 def _run_case(args):
     fn, params, idx = args
     t0 = time.time()
+    limit = _G.get('case_timeout')
+    import signal
+    if limit:
+        signal.signal(signal.SIGALRM, _alarm); signal.setitimer(signal.ITIMER_REAL, limit)
     try:
         r = fn(_G['prog'], params)
         r = r or {}
         r.setdefault('status', 'ok')
+    except CaseTimeout:
+        r = {'status': 'case-timeout', 'error': 'case exceeded %ss' % limit}
     except Unsupported as e:
         r = {'status': 'unsupported', 'error': str(e)[:600], 'trace': traceback.format_exc()[-400:]}
     except Exception as e:   # noqa
         r = {'status': 'error', 'error': '%s: %s' % (type(e).__name__, str(e)[:600]), 'trace': traceback.format_exc()[-600:]}
+    if limit: signal.setitimer(signal.ITIMER_REAL, 0)
     r['case'] = params if _jsonable(params) else repr(params)
     r['case_idx'] = idx
     r['wall_s'] = round(time.time() - t0, 3)
@@ -151,8 +166,9 @@ class Check:
         return s.prog
 
     # ---- running cases
-    def run_cases(s, fn, cases, jobs=None, label=''):
+    def run_cases(s, fn, cases, jobs=None, label='', case_timeout=None):
         jobs = jobs or ncpu()
+        _G['case_timeout'] = case_timeout
         cases = list(cases)
         order = list(range(len(cases)))
         s.rng.shuffle(order)
